@@ -57,7 +57,9 @@ THEOREMS = {
             "sortRat_sorted", "quantileLin_mono", "ws_monotone_in_quantile", "ws_raises_indep", "warmed_coldToWarm",
             "ws_idempotent"],
     "C14": ["fit_binarizer_once", "partialFit_binarizer_once", "binarize_spec", "binarize_noop_ctxBin", "np_binarize_once",
-            "addArm_new_binarizer", "tree_binarizer_twice_counterexample"],
+            "addArm_new_binarizer", "tree_binarizer_twice_counterexample",
+            "stepOp_binarizer_once", "stepOp_binz", "run_binarizer_once", "run_binarizer_once_state",
+            "chunked_binarizer_once"],
     "C15": ["sim_distance_lookup", "slice_row", "sim_selection_eq_library", "sim_cache_correct", "sim_cache_fresh",
             "shared_cache_counterexample", "radius_exact"],
     "C16": ["split_partition", "random_split_partition", "batches_cover_once", "stats_additive", "min_le_mean_le_max",
@@ -99,7 +101,7 @@ IMPORTS = {
     "C11": ["MabModel.Props.C11"],
     "C12": ["MabModel.Props.C12", "MabModel.Props.C12b"],
     "C13": ["MabModel.Props.C13", "MabModel.Props.C13b"],
-    "C14": ["MabModel.Props.C14"],
+    "C14": ["MabModel.Props.C14", "MabModel.Props.C14b"],
     "C15": ["MabModel.Props.C15"],
     "C16": ["MabModel.Props.C16", "MabModel.Props.C16b"],
     "C17": ["MabModel.Props.C17"],
